@@ -12,7 +12,8 @@ theorem bitset_spec (s : Small.BitSet) (v w : Nat) (hv : v < 256) (hw : w < 256)
   Small.bitset_spec s v w hv hw
 
 /-- T1: the functions this property's mirror model follows have today the source text the model was written against. -/
-theorem tie : Tie.sameAll ["ecolumn.maxCardinality", "ecolumn.nullValue", "ecolumn.bitset.set", "ecolumn.bitset.isSet", "ecolumn.compVal", "ecolumn.subset", "ecolumn.New", "ecolumn.NewConst", "ecolumn.NewFactory", "ecolumn.Factory.enumVal", "ecolumn.Factory.appendString", "ecolumn.Factory.AppendByteString", "ecolumn.Factory.AppendString", "ecolumn.Column.filterBuiltIn"] = true := by decide
+-- (`filterBuiltIn`, the kernels and the bitset builders are regenerated as terms and proved: C02Kernels, C02Dispatch)
+theorem tie : Tie.sameAll ["ecolumn.maxCardinality", "ecolumn.nullValue", "ecolumn.bitset.set", "ecolumn.bitset.isSet", "ecolumn.compVal", "ecolumn.subset", "ecolumn.New", "ecolumn.NewConst", "ecolumn.NewFactory", "ecolumn.Factory.enumVal", "ecolumn.Factory.appendString", "ecolumn.Factory.AppendByteString", "ecolumn.Factory.AppendString"] = true := by decide
 
 /-- Today's limits: 255 values, the code 255 is the null marker (so no value is ever reported as null). -/
 theorem gen_enum_constants :
